@@ -116,8 +116,17 @@ def replay(pkg_path, pkg_rel, harness, model):
             pkgname = re.search(r'^package (\w+)', open(os.path.join(HARNESS, pkg_rel, f)).read(), re.M).group(1)
             break
     tf = os.path.join(d, 'zz_verif_replay_test.go')
-    open(tf, 'w').write(_TEST_TMPL % {'pkgname': pkgname, 'entries': ', '.join('"%s": %s' % (n, n) for n in names)})
-    ovm = overlay_map({os.path.join(build.REPO, pkg_rel, 'zz_verif_replay_test.go'): tf})
+    host_rel = pkg_rel
+    if os.path.isdir(os.path.join(build.REPO, pkg_rel)):
+        open(tf, 'w').write(_TEST_TMPL % {'pkgname': pkgname, 'entries': ', '.join('"%s": %s' % (n, n) for n in names)})
+    else:
+        # overlay-only package: go test needs a real directory to run in, so the wrapper is an external test of a small
+        # existing package that imports the overlay package
+        host_rel = 'internal/tokens'
+        txt = _TEST_TMPL % {'pkgname': 'tokens_test', 'entries': ', '.join('"%s": zzh.%s' % (n, n) for n in names)}
+        txt = txt.replace('"compiler/internal/verifrt"\n', '"compiler/internal/verifrt"\n\tzzh "%s"\n' % pkg_path)
+        open(tf, 'w').write(txt)
+    ovm = overlay_map({os.path.join(build.REPO, host_rel, 'zz_verif_replay_test.go'): tf})
     ovf = os.path.join(d, 'ov.json')
     json.dump({'Replace': ovm}, open(ovf, 'w'))
     mf = os.path.join(d, 'model.json')
@@ -128,7 +137,7 @@ def replay(pkg_path, pkg_rel, harness, model):
     env['CGO_ENABLED'] = '0'
     from . import runner as _r
     env['VERIF_TIER'] = _r.tier()
-    r = subprocess.run(['go', 'test', '-v', '-vet=off', '-count=1', '-overlay', ovf, '-run', 'TestZZVerifReplay', './' + pkg_rel],
+    r = subprocess.run(['go', 'test', '-v', '-vet=off', '-count=1', '-overlay', ovf, '-run', 'TestZZVerifReplay', './' + host_rel],
                        cwd=build.REPO, env=env, capture_output=True, text=True, timeout=600)
     out = r.stdout + r.stderr
     if 'VERIF-REPLAY: ok' in out:
